@@ -62,6 +62,39 @@ def sc_val(prog, v):
     return Val("adt", [struct_val(prog, TC, {"token": marker("TOKEN"), "url": marker("URL")})], (SC, v))
 
 
+def challenge_hook_table(prog):
+    """{challenge: (hook type handed to hooks::call, clean type returned)} evaluated from call_challenge_hooks, or None"""
+    hb = prog.async_body(CCH)
+    from ..absint import async_state, success_model
+    table = {}
+    evaluated = True
+    for v in prog.adt_variants(CH):
+        idv = struct_val(prog, "acmed::identifier::Identifier", {"challenge": variant(CH, v)})
+        st = async_state(prog, CCH, lambda name, ty, i: Val("ref", idv) if ty.endswith("identifier::Identifier") else None)
+        try:
+            r = run(hb, {1: st}, success_model(hb, None, skip_unknown_loops=True), max_steps=60000)
+        except Exception:
+            r = None
+        setup = clean = None
+        if r is not None and r.kind == "return":
+            for c, a, res in r.calls:
+                if (c.name or "").endswith("hooks::call"):
+                    ht = [x.deref() for x in a if x.deref().k == "variant" and (x.deref().extra or "").endswith("HookType")]
+                    if len(ht) == 1 and setup is None:
+                        setup = ht[0].v
+                    else:
+                        setup = "?"
+            rv = r.ret.deref() if r.ret is not None else None
+            if rv is not None and rv.k == "adt" and rv.extra and rv.extra[1] == "Ok" and rv.v and rv.v[0].deref().k == "tuple":
+                cl = [x.deref() for x in rv.v[0].deref().v if x.deref().k == "variant" and (x.deref().extra or "").endswith("HookType")]
+                if len(cl) == 1:
+                    clean = cl[0].v
+        if setup is None or clean is None:
+            return None
+        table[v] = (setup, clean)
+    return table
+
+
 def check(ctx):
     prog = ctx.prog
     W1 = ctx.rule("W1", "what the client can READ of an authorization and its challenges: member / type names per RFC 8555 7.1.4, 8 and RFC 8737, unknown members ignored")
@@ -170,34 +203,10 @@ def check(ctx):
     hb = prog.async_body(CCH)
     # evaluation-first: call_challenge_hooks is interpreted for every configured challenge (every fallible call succeeds): the hook
     # type handed to hooks::call and the clean type returned next to the hook data are read off the trace
-    from ..absint import async_state, success_model
-    table = {}
-    evaluated = True
-    for v in prog.adt_variants(CH):
-        idv = struct_val(prog, "acmed::identifier::Identifier", {"challenge": variant(CH, v)})
-        st = async_state(prog, CCH, lambda name, ty, i: Val("ref", idv) if ty.endswith("identifier::Identifier") else None)
-        try:
-            r = run(hb, {1: st}, success_model(hb, None, skip_unknown_loops=True), max_steps=60000)
-        except Exception:
-            r = None
-        setup = clean = None
-        if r is not None and r.kind == "return":
-            for c, a, res in r.calls:
-                if (c.name or "").endswith("hooks::call"):
-                    ht = [x.deref() for x in a if x.deref().k == "variant" and (x.deref().extra or "").endswith("HookType")]
-                    if len(ht) == 1 and setup is None:
-                        setup = ht[0].v
-                    else:
-                        setup = "?"
-            rv = r.ret.deref() if r.ret is not None else None
-            if rv is not None and rv.k == "adt" and rv.extra and rv.extra[1] == "Ok" and rv.v and rv.v[0].deref().k == "tuple":
-                cl = [x.deref() for x in rv.v[0].deref().v if x.deref().k == "variant" and (x.deref().extra or "").endswith("HookType")]
-                if len(cl) == 1:
-                    clean = cl[0].v
-        if setup is None or clean is None:
-            evaluated = False
-            break
-        table[v] = (setup, clean)
+    table = challenge_hook_table(prog)
+    evaluated = table is not None
+    if table is None:
+        table = {}
     if not evaluated:
         table = {}
         hb = prog.async_body(CCH)
